@@ -214,6 +214,18 @@ def units():
           "cbmc_flags": ["--object-bits", "12"], "timeout": 600, "replay_driver": "sndfile_seek.c",
           "replay_link": "all", "replay_exclude": ["sndfile.c"],
           "trusted": ["generic dispatch contract codec_seek_c stands for psf->seek"]}]
+    callee = ["verif_log_printf", "psf_file_valid", "sf_version_string", "psf_get_format_simple", "psf_get_format_major",
+              "psf_get_format_subtype", "psf_get_format_info", "psf_get_format_simple_count", "psf_get_format_major_count",
+              "psf_get_format_subtype_count", "psf_calc_signal_max", "psf_calc_max_all_channels", "psf_get_signal_max",
+              "psf_get_max_all_channels", "broadcast_var_set", "broadcast_var_get", "cart_var_set", "cart_var_get",
+              "psf_get_cues", "psf_cues_dup", "psf_instrument_alloc", "dither_init", "float32_init", "double64_init",
+              "sf_seek", "psf_fseek", "psf_ftruncate"]
+    U.append({"name": "sndfile.sf_command", "props": ["C17", "C09", "C11", "C12", "C19"], "harness": "sndfile_command.harness.c",
+              "entry": "h_command", "enforce": "sf_command", "function": "sndfile.c:sf_command", "replace": callee,
+              "gi_flags": [], "cbmc_flags": ["--object-bits", "12"], "timeout": 1200, "mem_gb": 16,
+              "trusted": ["E1 snprintf/strlen models (spec/env_stubs.h, units/sndfile_command.harness.c)",
+                          "psf_log_printf (variadic, cannot be instrumented): assumed to write only psf->parselog",
+                          "callee contracts of command.c / broadcast.c / cart.c / cues: bytes of `data` touched <= datasize (enforced where a unit exists)"]})
     for kind in ("read", "write"):
         for T in TYPES:
             for framesv in (False, True):
